@@ -124,8 +124,11 @@ def concrete_failures(item, costs, delta=0):
         costs2 = {k: (v if v is inf else v * item["k"]) for k, v in costs.items()}
     if kind == "mono":
         costs2[item["raise"]] = costs[item["raise"]] + delta
-    r1 = run_all(algo, c1.build(costs))
-    r2 = run_all(algo, H.Case(d2).build(costs2))
+    try:
+        r1 = run_all(algo, c1.build(costs))
+        r2 = run_all(algo, H.Case(d2).build(costs2))
+    except Exception as e:
+        return [f"exception {type(e).__name__}: {e}"]
     a, b = cost_of(r1), cost_of(r2)
     fails = []
     i1 = {x: x for x in io.values()}
@@ -208,8 +211,18 @@ def worker(item):
         case1, case2 = H.Case(desc), H.Case(d2)
         inp1, inp2 = case1.build(costs), case2.build(costs2)
         for _ in ctx.paths():
-            r1 = run_all(algo, inp1)
-            r2 = run_all(algo, inp2)
+            try:
+                r1 = run_all(algo, inp1)
+                r2 = run_all(algo, inp2)
+            except Exception as e:
+                out["obligations"] += 1
+                cc = H.concrete_costs(costs, ctx.model_values())
+                cf = concrete_failures(item, cc, 0)
+                out["violations"].append({
+                    "kind": kind, "text": f"{algo} under '{kind}': exception {type(e).__name__}: {e}; input {desc}; transformed {d2}; costs {H.cost_json(cc)}; concrete: {cf}",
+                    "signature": {"kind": kind, "algo": algo, "desc": desc, "exception": type(e).__name__},
+                    "data": {"item": item, "costs": H.cost_json(cc), "delta": 0}, "confirmed": bool(cf)})
+                break
             a, b = cost_of(r1), cost_of(r2)
             fails, model = [], None
             out["obligations"] += 1
